@@ -1276,3 +1276,306 @@ Section ReverseThms.
     intro H. apply check_nfa_inv in H. destruct H as [-> _]. apply reverse_pre_lang; assumption.
   Qed.
 End ReverseThms.
+
+(* ------------------------------------------------------------------ *)
+(* products of graphs *)
+Lemma gpath_closed {X} (E : X -> option nat -> X -> Prop) (P : X -> Prop) :
+  (forall x a y, P x -> E x a y -> P y) -> forall x w y, P x -> gpath E x w y -> P y.
+Proof.
+  intros Hc x w y Hx H. induction H as [x|x y1 z w He Hp IH|x a y1 z w He Hp IH]; [exact Hx| |];
+    apply IH; eapply Hc; eassumption.
+Qed.
+
+Lemma gpath_iff {X} (E1 E2 : X -> option nat -> X -> Prop) :
+  (forall x a y, E1 x a y <-> E2 x a y) -> forall x w y, gpath E1 x w y <-> gpath E2 x w y.
+Proof. intros H x w y. split; apply gpath_mono; intros x' a y'; apply H. Qed.
+
+Section ProdPath.
+  Context {X Y : Type}.
+  Variable EA : X -> option nat -> X -> Prop.
+  Variable EB : Y -> option nat -> Y -> Prop.
+
+  (* synchronous on symbols, interleaved on the empty string *)
+  Definition prodE (x : X * Y) (a : option nat) (y : X * Y) : Prop :=
+    match a with
+    | None => (EA (fst x) None (fst y) /\ snd y = snd x) \/ (fst y = fst x /\ EB (snd x) None (snd y))
+    | Some _ => EA (fst x) a (fst y) /\ EB (snd x) a (snd y)
+    end.
+
+  Lemma prod_split x w y : gpath prodE x w y -> gpath EA (fst x) w (fst y) /\ gpath EB (snd x) w (snd y).
+  Proof.
+    intro H. induction H as [x|x y1 z w He Hp [IH1 IH2]|x a y1 z w He Hp [IH1 IH2]].
+    - split; apply gp_refl.
+    - simpl in He. destruct He as [[He E]|[E He]].
+      + rewrite E in IH2. split; [eapply gp_eps; eassumption|exact IH2].
+      + rewrite E in IH1. split; [exact IH1|eapply gp_eps; eassumption].
+    - simpl in He. destruct He as [He1 He2]. split; eapply gp_sym; eassumption.
+  Qed.
+
+  Lemma prod_lift_l p p' : gpath EA p [] p' -> forall q, gpath prodE (p, q) [] (p', q).
+  Proof.
+    intro H. remember (@nil nat) as w eqn:Ew.
+    induction H as [p|p p1 p' w He Hp IH|p a p1 p' w He Hp IH]; intro q.
+    - apply gp_refl.
+    - eapply gp_eps; [|apply IH; exact Ew]. simpl. left. auto.
+    - discriminate.
+  Qed.
+
+  Lemma prod_lift_r q q' : gpath EB q [] q' -> forall p, gpath prodE (p, q) [] (p, q').
+  Proof.
+    intro H. remember (@nil nat) as w eqn:Ew.
+    induction H as [q|q q1 q' w He Hp IH|q a q1 q' w He Hp IH]; intro p.
+    - apply gp_refl.
+    - eapply gp_eps; [|apply IH; exact Ew]. simpl. right. auto.
+    - discriminate.
+  Qed.
+
+  Lemma prod_join p w p' : gpath EA p w p' -> forall q q', gpath EB q w q' -> gpath prodE (p, q) w (p', q').
+  Proof.
+    intro H. induction H as [p|p p1 p' w He Hp IH|p a p1 p' w He Hp IH]; intros q q' HB.
+    - apply prod_lift_r. exact HB.
+    - eapply gp_eps; [|apply IH; exact HB]. simpl. left. auto.
+    - apply gpath_cons_inv in HB. destruct HB as [q1 [q2 [H1 [H2 H3]]]].
+      change (a :: w) with ([] ++ a :: w). eapply gpath_app; [apply prod_lift_r; exact H1|].
+      eapply gp_sym; [|apply IH; exact H3]. simpl. auto.
+  Qed.
+
+  (* shuffle: either side moves on any label *)
+  Definition shufE (x : X * Y) (a : option nat) (y : X * Y) : Prop :=
+    (EA (fst x) a (fst y) /\ snd y = snd x) \/ (fst y = fst x /\ EB (snd x) a (snd y)).
+
+  Lemma shuf_lift_l p u p' : gpath EA p u p' -> forall q, gpath shufE (p, q) u (p', q).
+  Proof.
+    intro H. induction H as [p|p p1 p' w He Hp IH|p a p1 p' w He Hp IH]; intro q.
+    - apply gp_refl.
+    - eapply gp_eps; [|apply IH]. left. auto.
+    - eapply gp_sym; [|apply IH]. left. auto.
+  Qed.
+
+  Lemma shuf_lift_r q v q' : gpath EB q v q' -> forall p, gpath shufE (p, q) v (p, q').
+  Proof.
+    intro H. induction H as [q|q q1 q' w He Hp IH|q a q1 q' w He Hp IH]; intro p.
+    - apply gp_refl.
+    - eapply gp_eps; [|apply IH]. right. auto.
+    - eapply gp_sym; [|apply IH]. right. auto.
+  Qed.
+
+  Lemma shuf_split x w y : gpath shufE x w y ->
+    exists u v, shuffle u v w /\ gpath EA (fst x) u (fst y) /\ gpath EB (snd x) v (snd y).
+  Proof.
+    intro H. induction H as [x|x y1 z w He Hp [u [v [Hs [IH1 IH2]]]]|x a y1 z w He Hp [u [v [Hs [IH1 IH2]]]]].
+    - exists [], []. split; [apply sh_nil|]. split; apply gp_refl.
+    - destruct He as [[He E]|[E He]].
+      + rewrite E in IH2. exists u, v. split; [exact Hs|]. split; [eapply gp_eps; eassumption|exact IH2].
+      + rewrite E in IH1. exists u, v. split; [exact Hs|]. split; [exact IH1|eapply gp_eps; eassumption].
+    - destruct He as [[He E]|[E He]].
+      + rewrite E in IH2. exists (a :: u), v. split; [apply sh_l; exact Hs|]. split; [eapply gp_sym; eassumption|exact IH2].
+      + rewrite E in IH1. exists u, (a :: v). split; [apply sh_r; exact Hs|]. split; [exact IH1|eapply gp_sym; eassumption].
+  Qed.
+
+  Lemma shuf_join u v w : shuffle u v w -> forall p p' q q',
+    gpath EA p u p' -> gpath EB q v q' -> gpath shufE (p, q) w (p', q').
+  Proof.
+    intro H. induction H as [|a u v w Hs IH|a u v w Hs IH]; intros p p' q q' HA HB.
+    - change (@nil nat) with (@nil nat ++ @nil nat).
+      eapply gpath_app; [apply shuf_lift_l; exact HA|apply shuf_lift_r; exact HB].
+    - apply gpath_cons_inv in HA. destruct HA as [p1 [p2 [H1 [H2 H3]]]].
+      change (a :: w) with ([] ++ a :: w). eapply gpath_app; [apply shuf_lift_l; exact H1|].
+      eapply gp_sym; [|eapply IH; eassumption]. left. auto.
+    - apply gpath_cons_inv in HB. destruct HB as [q1 [q2 [H1 [H2 H3]]]].
+      change (a :: w) with ([] ++ a :: w). eapply gpath_app; [apply shuf_lift_r; exact H1|].
+      eapply gp_sym; [|eapply IH; eassumption]. right. auto.
+  Qed.
+End ProdPath.
+
+Lemma opt_row_tg {X} (R : xrow X) a y :
+  (exists r, opt_row R = Some r /\ In y (xtg r a)) <-> In y (xtg R a).
+Proof.
+  split.
+  - intros [r [E H]]. destruct R; simpl in E; [discriminate|]. inversion E; subst. exact H.
+  - intro H. destruct R as [|e R]; [unfold xtg in H; simpl in H; destruct H|].
+    exists (e :: R). split; [reflexivity|exact H].
+Qed.
+
+Lemma tab_row_targets {X} keys (F : option nat -> list X) y :
+  In y (row_targets (tab keys F)) <-> exists a, In a keys /\ In y (F a).
+Proof.
+  unfold row_targets, tab. rewrite in_flat_map. split.
+  - intros [[a l] [Hin Hy]]. apply in_map_iff in Hin. destruct Hin as [a' [E Ha]]. injection E as <- <-.
+    exists a'. auto.
+  - intros [a [Ha Hy]]. exists (a, F a). split; [apply in_map_iff; exists a; auto|exact Hy].
+Qed.
+
+Lemma in_cond_keys (c : bool) (l : list nat) (s : nat) :
+  In (Some s) ((if c then [None] else []) ++ map Some l) <-> In s l.
+Proof.
+  rewrite in_app_iff, in_map_iff. split.
+  - intros [H|[s' [E H]]]; [destruct c; [destruct H as [H|[]]; discriminate|destruct H]|inversion E; subst; exact H].
+  - intro H. right. exists s. auto.
+Qed.
+
+Lemma in_cond_none (c : bool) (l : list nat) :
+  In None ((if c then [None] else []) ++ map Some l) <-> c = true.
+Proof.
+  rewrite in_app_iff, in_map_iff. split.
+  - intros [H|[s' [E H]]]; [destruct c; [reflexivity|destruct H]|discriminate].
+  - intros ->. left. left. reflexivity.
+Qed.
+
+(* ------------------------------------------------------------------ *)
+Section Inter.
+  Variables A B : nfa.
+  Hypothesis HvA : valid_nfa A = true.
+  Hypothesis HvB : valid_nfa B = true.
+
+  Let syms := usyms A B.
+  Let rowI := fun x => opt_row (inter_row A B syms x).
+  Let EI := xedge rowI.
+  Let EP := prodE (n_edge A) (n_edge B).
+
+  Lemma inter_row_tg x a y : In y (xtg (inter_row A B syms x) a) <-> EP x a y.
+  Proof.
+    unfold inter_row. rewrite tab_tg. unfold EP, prodE, n_edge. rewrite !n_targets_arow.
+    destruct a as [s|].
+    - rewrite in_cond_keys, filter_In, andb_true_iff, !has_key_In.
+      destruct y as [y1 y2]. rewrite in_prod_iff. simpl. split; [tauto|].
+      intros [H1 H2]. split; [|auto]. split; [|split; eapply xtg_key; eassumption].
+      rewrite <- n_targets_arow in H1. apply (edge_sym_ok A HvA) in H1. simpl in H1.
+      apply memb_In in H1. unfold syms, usyms. apply set_of_In. apply in_or_app. left. exact H1.
+    - rewrite in_cond_none, orb_true_iff, !has_key_In, in_app_iff. split.
+      + intros [_ [H|H]]; apply in_map_iff in H; destruct H as [t [<- Ht]]; simpl; auto.
+      + intros [[H1 H2]|[H1 H2]].
+        * split; [left; eapply xtg_key; exact H1|]. left. apply in_map_iff. exists (fst y). split; [|exact H1].
+          destruct y; simpl in *; congruence.
+        * split; [right; eapply xtg_key; exact H2|]. right. apply in_map_iff. exists (snd y). split; [|exact H2].
+          destruct y; simpl in *; congruence.
+  Qed.
+
+  Lemma inter_edge x a y : EI x a y <-> EP x a y.
+  Proof. unfold EI, xedge, rowI. rewrite opt_row_tg. apply inter_row_tg. Qed.
+
+  Lemma inter_succ x y : In y (row_targets (inter_row A B syms x)) <-> exists a, EP x a y.
+  Proof.
+    split.
+    - intro H. unfold row_targets in H. apply in_flat_map in H. destruct H as [[a l] [Hin Hy]].
+      exists a. apply inter_row_tg. unfold inter_row in *. apply tab_tg.
+      apply tab_entry in Hin. destruct Hin as [Hk ->]. auto.
+    - intros [a H]. apply inter_row_tg in H. unfold inter_row in *. apply tab_tg in H.
+      apply tab_row_targets. exists a. exact H.
+  Qed.
+
+  Lemma EP_in x a y : In (fst x) (n_states A) -> In (snd x) (n_states B) -> EP x a y ->
+    In (fst y) (n_states A) /\ In (snd y) (n_states B).
+  Proof.
+    intros H1 H2 He. unfold EP, prodE in He. destruct a as [s|].
+    - destruct He as [Ha Hb]. split; [eapply (edge_in_states A HvA); exact Ha|eapply (edge_in_states B HvB); exact Hb].
+    - destruct He as [[Ha E]|[E Hb]].
+      + rewrite E. split; [eapply (edge_in_states A HvA); exact Ha|exact H2].
+      + rewrite E. split; [exact H1|eapply (edge_in_states B HvB); exact Hb].
+  Qed.
+
+  Lemma inter_states_some : exists ps, inter_states A B = Some ps.
+  Proof.
+    destruct (ops_valid_parts A HvA) as (_ & _ & _ & _ & HiA & _).
+    destruct (ops_valid_parts B HvB) as (_ & _ & _ & _ & HiB & _).
+    destruct (inter_states A B) as [ps|] eqn:E; [eauto|]. exfalso. revert E. unfold inter_states.
+    apply (closure_fuel _ _ eqb_pp_ok _ (list_prod (n_states A) (n_states B))).
+    - intros x y Hx Hy. destruct x as [x1 x2]. apply in_prod_iff in Hx. destruct Hx as [Hx1 Hx2].
+      apply inter_succ in Hy. destruct Hy as [a Hy]. destruct (EP_in (x1, x2) a y Hx1 Hx2 Hy) as [H1 H2].
+      destruct y as [y1 y2]. apply in_prod_iff. auto.
+    - intros x [<-|[]]. apply in_prod_iff. auto.
+    - rewrite prod_length. lia.
+  Qed.
+
+  Variable ps : list (nat * nat).
+  Hypothesis Hps : inter_states A B = Some ps.
+  Let x0 := (n_init A, n_init B).
+
+  Lemma inter_x0 : In x0 ps.
+  Proof.
+    unfold inter_states in Hps. eapply (closure_complete _ _ eqb_pp_ok); [exact Hps|].
+    apply reach_init. left. reflexivity.
+  Qed.
+
+  Lemma inter_closed x a y : In x ps -> EP x a y -> In y ps.
+  Proof.
+    intros Hx He. unfold inter_states in Hps. eapply (closure_complete _ _ eqb_pp_ok); [exact Hps|].
+    eapply reach_step; [eapply (closure_sound _ _ eqb_pp_ok); [exact Hps|exact Hx]|].
+    apply inter_succ. exists a. exact He.
+  Qed.
+
+  Lemma inter_rows_ok : rows_ok ps syms rowI.
+  Proof.
+    intros x r Hx Er a l Hal. unfold rowI in Er.
+    assert (r = inter_row A B syms x) by (destruct (inter_row A B syms x); simpl in Er; [discriminate|inversion Er; reflexivity]).
+    subst r. clear Er. split.
+    - unfold inter_row in Hal. apply tab_entry in Hal. destruct Hal as [Hk _].
+      destruct a as [s|]; [|reflexivity]. apply in_cond_keys in Hk. apply filter_In in Hk. simpl. apply memb_In. apply Hk.
+    - intros y Hy. assert (Hs : In y (row_targets (inter_row A B syms x))).
+      { unfold row_targets. apply in_flat_map. exists (a, l). auto. }
+      apply inter_succ in Hs. destruct Hs as [a' He]. eapply inter_closed; eassumption.
+  Qed.
+
+  Lemma inter_fin_incl : incl (filter (fun x => memb (fst x) (n_finals A) && memb (snd x) (n_finals B)) ps) ps.
+  Proof. intros z Hz. apply filter_In in Hz. apply Hz. Qed.
+
+  Lemma inter_row0 : rowI x0 <> None \/ length ps <= 1.
+  Proof.
+    unfold rowI. destruct (inter_row A B syms x0) as [|e r] eqn:E; [|left; simpl; discriminate].
+    right. apply (NoDup_all_eq ps x0).
+    - unfold inter_states in Hps. eapply (closure_NoDup _ _ eqb_pp_ok). exact Hps.
+    - intros x Hx. unfold inter_states in Hps. apply (closure_sound _ _ eqb_pp_ok _ _ _ _ Hps) in Hx.
+      induction Hx as [x Hx|x y Hr IH Hy]; [destruct Hx as [<-|[]]; reflexivity|].
+      subst x. change (In y (row_targets (inter_row A B syms x0))) in Hy. rewrite E in Hy. destruct Hy.
+  Qed.
+
+  Lemma inter_pre_valid : valid_nfa (inter_pre A B ps) = true.
+  Proof.
+    unfold inter_pre. apply asm_valid.
+    - intros x y. apply pidx_inj.
+    - apply inter_rows_ok.
+    - apply inter_x0.
+    - apply inter_fin_incl.
+    - unfold inter_states in Hps. eapply (closure_NoDup _ _ eqb_pp_ok). exact Hps.
+    - apply usyms_NoDup.
+    - apply inter_row0.
+  Qed.
+
+  Lemma inter_pre_lang : L_nfa (inter_pre A B ps) =L l_inter (L_nfa A) (L_nfa B).
+  Proof.
+    intro w. unfold inter_pre. rewrite asm_lang.
+    2: intros x y; apply pidx_inj. 2: apply inter_rows_ok. 2: apply inter_x0. 2: apply inter_fin_incl.
+    fold syms. fold rowI. fold EI. unfold l_inter, L_nfa. split.
+    - intros [y [Hp Hy]]. apply (gpath_iff _ _ inter_edge) in Hp. apply prod_split in Hp. destruct Hp as [H1 H2].
+      apply filter_In in Hy. destruct Hy as [_ Hy]. apply andb_true_iff in Hy. destruct Hy as [F1 F2].
+      apply memb_In in F1. apply memb_In in F2. simpl in H1, H2.
+      split; [exists (fst y)|exists (snd y)]; (split; [apply nfa_path_gpath; assumption|assumption]).
+    - intros [[f [H1 F1]] [g [H2 F2]]]. exists (f, g).
+      assert (Hp : gpath EP x0 w (f, g)).
+      { apply prod_join; apply nfa_path_gpath; assumption. }
+      split; [apply (gpath_iff _ _ inter_edge); exact Hp|].
+      apply filter_In. split.
+      + apply (gpath_closed EP (fun x => In x ps)) with (x := x0) (w := w); [|apply inter_x0|exact Hp].
+        intros x a y. apply inter_closed.
+      + simpl. apply andb_true_iff. split; apply memb_In; assumption.
+  Qed.
+End Inter.
+
+Section InterThms.
+  Variables A B : nfa.
+  Hypothesis HvA : valid_nfa A = true.
+  Hypothesis HvB : valid_nfa B = true.
+
+  Theorem ops_inter_total : exists R, nfa_intersection A B = Ok R /\ valid_nfa R = true.
+  Proof.
+    destruct (inter_states_some A B HvA HvB) as [ps Hps]. exists (inter_pre A B ps).
+    split; [|apply inter_pre_valid; assumption].
+    unfold nfa_intersection. rewrite Hps. apply check_nfa_ok. apply inter_pre_valid; assumption.
+  Qed.
+
+  Theorem ops_inter_lang R : nfa_intersection A B = Ok R -> L_nfa R =L l_inter (L_nfa A) (L_nfa B).
+  Proof.
+    unfold nfa_intersection. destruct (inter_states A B) as [ps|] eqn:Hps; [|discriminate].
+    intro H. apply check_nfa_inv in H. destruct H as [-> _]. apply inter_pre_lang; assumption.
+  Qed.
+End InterThms.
